@@ -1,4 +1,5 @@
 import asyncio
+import inspect
 from datetime import datetime, timezone
 import functools
 import os
@@ -126,7 +127,7 @@ class InstrumentedAsyncServer:
             else:
                 try:
                     ret = self.auth(client_auth)
-                    if asyncio.iscoroutine(ret):
+                    if inspect.isawaitable(ret):
                         ret = await ret
                     authenticated = ret
                 except Exception:
